@@ -1,4 +1,6 @@
 import Secp.Proofs.Ecdsa
+import Secp.Props.C03
+import Secp.Proofs.Ecdh
 /-
   Props/C01 — ECDSA signing is valid, deterministic and standard-conformant.
   Model: `Secp.Model.signM` (sign with a given nonce), `signRFC6979M` (retry loop over the RFC 6979
@@ -40,5 +42,18 @@ theorem sign_deterministic (d : Nat) (h : Bytes) : signRFC6979M d h = signRFC697
 /-- the hash is read as the first 32 bytes, big-endian, reduced mod N (shorter hashes are plain integers) -/
 theorem hash_to_e (h : Bytes) : hashScalar h = beNat (h.take 32) % N :=
   Secp.Proofs.Ecdsa.hash_to_e h
+
+/-! ### unconditional forms -/
+
+theorem sign_eq_spec_unconditional (d k : Nat) (h : Bytes) (hd : d < N) (hk0 : 0 < k) (hk : k < N) :
+    signM d k h = ecdsaSignWithNonce d k h := by
+  obtain ⟨x, y, hxy, _⟩ := Secp.Proofs.Ecdh.pubkey_finite k hk0 hk
+  exact sign_eq_spec Secp.Props.C03.pointSpec d k h hd hk0 hk (by rw [hxy]; exact Option.some_ne_none _)
+
+theorem signRFC6979_eq_spec_unconditional (d : Nat) (h : Bytes) (hd : d < N) (fuel iter : Nat) :
+    signRFC6979Aux hmacSha256 d h fuel iter = ecdsaSignAuxGen hmacSha256 256 d h fuel iter :=
+  signRFC6979_eq_spec Secp.Props.C03.pointSpec d h hd fuel iter (fun k hk0 hk => by
+    obtain ⟨x, y, hxy, _⟩ := Secp.Proofs.Ecdh.pubkey_finite k hk0 hk
+    rw [hxy]; exact Option.some_ne_none _)
 
 end Secp.Props.C01
